@@ -121,6 +121,14 @@ class gre (packet_base):
         self.strict_source_route = (flags & 0x800) != 0
         self.recursion = (flags & 0x700) >> 8
 
+        need = o
+        if csum_present or route_present: need += 4
+        if key_present: need += 4
+        if seq_present: need += 4
+        if dlen < need:
+            self.msg('warning GRE packet data too short for its optional fields')
+            return
+
         offset = None
         if csum_present or route_present:
             self.csum,self.route_offset = struct.unpack("!HH", raw[o:o+4])
@@ -141,6 +149,10 @@ class gre (packet_base):
         if route_present:
             self.routing = []
             while True:
+                if dlen < o + 4:
+                    self.msg('warning GRE source route runs past the packet')
+                    self.parsed = False
+                    return
                 af,so,sl = struct.unpack("!HBB", raw[o:o+4])
                 o += 4
                 sd = raw[o:o+sl]
